@@ -55,14 +55,24 @@ def run(ctx):
         ctx.extra['write_faults_enumerated'] = ctx.extra.get('write_faults_enumerated', 0) + sum(1 for e in evs2 if e.get('ev') == 'op' and e['failed_write'])
         ctx.sample({'kind': 'update on the real RuleManager', 'event': {k: v for k, v in ops[3].items() if k in ('kind', 'prims', 'res', 'failed_write')},
                     'rules_after': ops[3]['obs']['all']})
+        tr3 = os.path.join(ctx.dir, 'big_%d.ndjson' % sd)
+        vlib.run_harness(['placement', 'big', 'out=' + tr3, 'seed=%d' % sd, 'histories=%d' % (4 if q else 16)])
+        bad3, evs3 = ctx.monitor_all('placement', 'Mon_RuleRestart', 'Mon_RuleRestart.cfg', tr3, 'big_%d' % sd, timeout=3000)
+        handle(ctx, bad3, evs3, 'big_%d' % sd)
+        ctx.extra['largest_configuration_restarted'] = max(ctx.extra.get('largest_configuration_restarted', 0), max([e['nrules'] for e in evs3 if e.get('ev') == 'big'] + [0]))
     return ctx.finish(rule='RuleManager.tla: validity of every key, documented rule order, override semantics, write-by-write updates with '
                            'failures and retry (TLC exhaustive on a small domain, liveness RetryConverges in the thorough tier); seeded '
                            'histories of all nine update kinds with injected storage failures on the real RuleManager; TLC recomputes '
-                           'acceptance, every observable and the restart view from the model (Trace_RuleManager.tla)')
+                           'acceptance, every observable and the restart view from the model (Trace_RuleManager.tla); configurations of 60-320 rules in up to 130 groups '
+                           '(more than one storage page) are restarted and compared (Mon_RuleRestart.tla)')
 
 
 def replay(ctx, path):
     tr = os.path.join(path, 'trace.ndjson')
+    if any(e.get('ev') == 'big' for e in vlib.read_ndjson(tr)):
+        bad, evs = ctx.monitor_all('placement', 'Mon_RuleRestart', 'Mon_RuleRestart.cfg', tr, 'replay')
+        handle(ctx, bad, evs, 'replay')
+        return ctx.finish()
     bad, evs = ctx.monitor_all('placement', 'Trace_RuleManager', 'Trace_RuleManager.cfg', tr, 'replay')
     handle(ctx, bad, evs, 'replay')
     return ctx.finish()
